@@ -801,6 +801,7 @@ def run(ctx):
     for s, c in sorted(nfail.items()):
         res.count("failures:" + s, c)
     run_corpus(ctx, res, tables)
+    __import__("corr.fn_common", fromlist=["run_fn"]).run_fn(ctx, res, "C18")  # regenerated functions vs the real ones (tools/py2lean.py)
     return res
 
 
